@@ -517,7 +517,7 @@ impl Descriptor for DecoderSpecificDescriptor {
 fn get_audio_object_type(byte_a: u8, byte_b: u8) -> u8 {
     let mut profile = byte_a >> 3;
     if profile == 31 {
-        profile = 32 + ((byte_a & 7) | (byte_b >> 5));
+        profile = 32 + (((byte_a & 7) << 3) | (byte_b >> 5));
     }
 
     profile
